@@ -239,6 +239,8 @@ func buildReport(eng *Engine, prop, tier string, seed int64, cases []*ReplayCase
 		"machinery_errors":              machinery,
 		"bounds":                        harnessBounds(prop, tier),
 		"exhaustive":                    false,
+		"region_merges":                 eng.merges.Load(),
+		"region_merge_aborts":           eng.mergeAborts.Load(),
 	}
 	if len(samples) == 0 {
 		cov["samples"] = []interface{}{"no witness"}
@@ -253,8 +255,8 @@ func buildReport(eng *Engine, prop, tier string, seed int64, cases []*ReplayCase
 		"wall_s":      total.Seconds(),
 		"violations":  violations,
 	}
-	r.Summary = append([]string{fmt.Sprintf("%s %s: %d harnesses, %d paths, %d instr, %d obligations, solver sat=%d unsat=%d unknown=%d (%.1fs), load %.1fs explore %.1fs total %.1fs",
-		prop, tier, len(eng.harnesses), states, transitions, obligations, st.Sat, st.Unsat, st.Unknown, st.Time.Seconds(), loadT.Seconds(), exploreT.Seconds(), total.Seconds())}, r.Summary...)
+	r.Summary = append([]string{fmt.Sprintf("%s %s: %d harnesses, %d paths, %d instr, %d obligations, solver sat=%d unsat=%d unknown=%d (%.1fs), merges %d/%d aborted, load %.1fs explore %.1fs total %.1fs",
+		prop, tier, len(eng.harnesses), states, transitions, obligations, st.Sat, st.Unsat, st.Unknown, st.Time.Seconds(), eng.merges.Load(), eng.mergeAborts.Load(), loadT.Seconds(), exploreT.Seconds(), total.Seconds())}, r.Summary...)
 	for _, h := range eng.harnesses {
 		r.Summary = append(r.Summary, fmt.Sprintf("  %-34s %v", h.Name, pathsBy[h.Name]))
 	}
